@@ -33,6 +33,8 @@ class Module:
         self.path = path
         self.source = source
         self.tree = ast.parse(source, path)
+        from . import normalize
+        self.normalized = normalize.normalize(self.tree, name)
         for parent in ast.walk(self.tree):
             for child in ast.iter_child_nodes(parent):
                 child._parent = parent
